@@ -13,6 +13,7 @@ import (
 	"os/exec"
 	"path/filepath"
 	"regexp"
+	"runtime/debug"
 	"runtime/pprof"
 	"sort"
 	"strings"
@@ -135,6 +136,7 @@ type runner struct {
 
 func main() {
 	flag.Parse()
+	debug.SetGCPercent(400)
 	t0 := time.Now()
 	if *cpuProf != "" {
 		f, _ := os.Create(*cpuProf)
